@@ -209,19 +209,13 @@ func parseDesc(d string) *bt.Tx {
 	return tx
 }
 
-// setRawTxID installs a previous txid of arbitrary length the only way the public API
-// allows: through the JSON decoder of bt.Input (which does not validate the length).
+// setRawTxID: a previous txid that is not 32 bytes long. Before go-bt fix F-C07-07 the JSON decoder of bt.Input accepted
+// any length, and that was the one public way to build such an input; now there is none, so an empty id stays unset
+// (the zero value of bt.Input) and any other length is a generator error.
 func setRawTxID(in *bt.Input, txid []byte) {
-	tmp := &bt.Input{}
-	js := fmt.Sprintf(`{"unlockingScript":"","txid":"%s","vout":0,"sequence":0}`, hex.EncodeToString(txid))
-	if err := tmp.UnmarshalJSON([]byte(js)); err != nil {
-		panic(err)
+	if len(txid) != 0 {
+		panic(fmt.Sprintf("a %d-byte previous txid cannot be built through the public API", len(txid)))
 	}
-	// copy the unexported field by value-assigning the whole struct, then restore the public fields
-	saved := *in
-	*in = *tmp
-	in.PreviousTxOutIndex, in.UnlockingScript, in.SequenceNumber = saved.PreviousTxOutIndex, saved.UnlockingScript, saved.SequenceNumber
-	in.PreviousTxSatoshis, in.PreviousTxScript = saved.PreviousTxSatoshis, saved.PreviousTxScript
 }
 
 func mustHex(s string) []byte {
